@@ -33,7 +33,7 @@ CMP = ("x", "fun", "jac", "nfev", "njev", "nit", "sk", "yk")
 
 def floors(tier):
     return {"callback_states": 300, "states_vs_maxiter_run": 300, "retained_states_rechecked": 800, "crash_points": 500,
-            "restarts_from_retained_state": 500, "callback_free_runs_compared": 60, "callback_free_runs_compared_with_objective_redefined": 60,
+            "restarts_from_retained_state": 500, "callback_free_runs_compared": 60, "callback_free_runs_compared_with_objective_redefined": 60, "callback_free_runs_compared_with_nested_run_in_callback": 30,
             "ufd_runs_stopped_by:FTOL": 20, "continuations_compared_to_the_end": 400, "continuations_through_a_failed_line_search": 40, "__nontrivial__": 300}
 
 
@@ -56,6 +56,14 @@ def cases(tier, seed):
                                             starts=("interior", "face"))
             spec.update(K=int(rng.integers(20, 45)), maxls=int(gen.pick(rng, [1, 2, 2, 3])), long=True)
         yield spec
+    # ... nor a run with finite-difference gradients whose callback runs another, independent optimisation (a probe with other
+    # differencing settings and another box) before returning False
+    for i in range(60 if tier == "quick" else 1500):
+        ps = gen.rand_spec(rng, ("qp", "qp_quartic", "rosenbrock", "styblinski_tang"), nmax=6, nmin=2, boxes=("mixed", "boxed", "lower", "unit", "nonneg"),
+                           starts=("interior", "face", "vertex"), condmax=1e3)
+        yield {"kind": "nested_callback", "problem": ps, "maxcor": int(rng.integers(1, 7)), "jac": gen.pick(rng, [None, "2-point", "3-point"]),
+               "inner_jac": gen.pick(rng, [None, "2-point", "3-point"]), "inner_eps": float(gen.pick(rng, [1e-3, 1e-5])),
+               "inner_rel": gen.pick(rng, [None, 1e-2]), "inner_box": gen.pick(rng, ["none", "boxed", "lower"]), "K": int(rng.integers(3, 9))}
     # a callback that returns False must not alter a run whose objective is redefined on the fly either (relative-reduction / target stops)
     nu = 120 if tier == "quick" else 3000
     for i in range(nu):
@@ -168,6 +176,40 @@ def run_ufd_callback(spec, out):
     out.sample = dict(spec=spec, message=a.snap["message"], rewrites=ra)
 
 
+def run_nested_callback(spec, out):
+    P = gen.make_problem(spec["problem"])
+    Q = gen.make_problem({"family": "qp", "n": P.n, "seed": spec["problem"]["seed"] + 7, "cond": 10.0, "box": spec["inner_box"], "start": "interior"})
+    tags = dict(family=P.spec["family"], kind="nested_callback", mode=str(spec["jac"]))
+    name = f"{P.spec['family']} n={P.n} jac={spec['jac']} with a callback running an independent {spec['inner_jac']} optimisation"
+    cfg = dict(jac=spec["jac"], maxcor=spec["maxcor"], maxls=20, ftol=0.0, gtol=1e-10, maxfun=100000, maxiter=spec["K"])
+    qcfg = dict(jac=spec["inner_jac"], maxcor=3, maxiter=2, eps=spec["inner_eps"], finite_diff_rel_step=spec["inner_rel"], maxfun=500)
+
+    def on_cb(i, xk, state):
+        probes.run_min(Q, qcfg)
+        return False
+
+    a = probes.run_min(P, cfg)
+    b = probes.run_min(P, dict(cfg, cb="never"), hooks={"on_cb": on_cb})
+    out.count("callback_free_runs_compared")
+    out.count("callback_free_runs_compared_with_nested_run_in_callback")
+    if (a.exc is None) != (b.exc is None):
+        out.violate("callback_alters_run", f"{name}: one of the two runs raised ({a.exc!r} / {b.exc!r})", **tags)
+        return
+    if a.exc is not None:
+        out.count("runs_raised")
+        return
+    bad = probes.diff_states(a.snap, b.snap)
+    same_log = len(a.evals) == len(b.evals) and all(u[0] == v[0] and np.array_equal(u[1], v[1]) for u, v in zip(a.evals, b.evals))
+    if bad or not same_log:
+        k = next((i for i, (u, v) in enumerate(zip(a.evals, b.evals)) if not np.array_equal(u[1], v[1])), min(len(a.evals), len(b.evals)))
+        out.violate("callback_alters_run", f"{name}: with the callback (which returns False) fields {bad} / the evaluation log differ from the run without "
+                    f"callback (first different evaluation point #{k} of {len(a.evals)}/{len(b.evals)})", **tags)
+        return
+    out.nontrivial = len(b.cb) >= 2
+    out.key = f"nested_callback/{P.spec['family']}/{P.spec['seed']}/{spec['jac']}/{spec['inner_jac']}"
+    out.sample = dict(spec=spec, callbacks=len(b.cb))
+
+
 def e2e_key(msg):
     from ..e2e import MSG_KEY
 
@@ -178,6 +220,9 @@ def run(spec):
     out = Outcome()
     if spec.get("kind") == "ufd_callback":
         run_ufd_callback(spec, out)
+        return out
+    if spec.get("kind") == "nested_callback":
+        run_nested_callback(spec, out)
         return out
     P = gen.make_problem(spec["problem"])
     K = spec["K"]
